@@ -122,12 +122,12 @@ Qed.
 Lemma seq_offset_lt isn seq : seq_offset isn seq < two32.
 Proof. unfold seq_offset. apply N.mod_lt. unfold two32. lia. Qed.
 
-Lemma classify_dir_inorder d isn seq pay B :
+Lemma classify_dir_strict_inorder d isn seq pay B :
   d_done d = false -> map_is (d_map d) B -> d_recv d = length B -> pay <> [] -> seq < two32 ->
-  classify_dir d isn seq pay = (false, false, false) ->
+  classify_dir_strict d isn seq pay = (false, false, false) ->
   seq = isn + 1 + len_N B /\ seq_offset isn seq = len_N B.
 Proof.
-  intros Hd Hm Hr Hp Hs. unfold classify_dir, stream_prefix. rewrite Hd, Hr, (prefix_full _ _ Hm).
+  intros Hd Hm Hr Hp Hs. unfold classify_dir_strict, stream_prefix. rewrite Hd, Hr, (prefix_full _ _ Hm).
   intros E. injection E as E1 E2 E3.
   apply N.leb_gt in E1. apply N.ltb_ge in E2.
   destruct pay as [|b pay]; [congruence|]. cbn in E3. apply orb_false_iff in E3. destruct E3 as [E3 _].
@@ -149,14 +149,14 @@ Qed.
 
 Lemma dir_advance data0 d isn tds seq pay :
   data0_ok isn data0 -> seq < two32 -> pay <> [] -> d_done d = false ->
-  drel data0 d isn tds -> classify_dir d isn seq pay = (false, false, false) ->
+  drel data0 d isn tds -> classify_dir_strict d isn seq pay = (false, false, false) ->
   let m := place (d_map d) (seq_offset isn seq) pay in
   let n := (d_recv d + length pay)%nat in
   full_data (tds ++ [mkTd seq pay]) = prefix_from m n 0 /\
-  forall done, drel data0 (mkDir (d_isn d) m n done) isn (tds ++ [mkTd seq pay]).
+  forall done, drel data0 (mkDir (d_isn d) m n done (d_segs d ++ [(seq_offset isn seq, pay)])) isn (tds ++ [mkTd seq pay]).
 Proof.
   intros H0 Hs Hp Hd (ps & Ht & Hm & Hr) Hc m n.
-  destruct (classify_dir_inorder d isn seq pay (concat ps) Hd Hm Hr Hp Hs Hc) as [Hseq Hoff].
+  destruct (classify_dir_strict_inorder d isn seq pay (concat ps) Hd Hm Hr Hp Hs Hc) as [Hseq Hoff].
   assert (Ht' : tds ++ [mkTd seq pay] = data0 ++ chain_tds (isn + 1) (ps ++ [pay])).
   { rewrite Ht, chain_app, <- app_assoc, Hseq. reflexivity. }
   assert (Hm' : map_is m (concat (ps ++ [pay]))).
@@ -378,7 +378,7 @@ Section Sim.
     d_isn (sc_c c) = Some isn ->
     dir_data parse_req (sc_c c) isn (e_seq e) (e_pay e) = (d, ro) ->
     let cs1 := conn_replace (mkConn (sc_id c) d (sc_s c)) cs in
-    classify_dir (sc_c c) isn (e_seq e) (e_pay e) = (false, false, false) ->
+    classify_dir_strict (sc_c c) isn (e_seq e) (e_pay e) = (false, false, false) ->
     (e_fin e || e_rst e) && negb (both_done (e_conn e) cs1) = false ->
     exists st1, stepM st (wire e) = (st1, match ro with Some q => OReq q | None => ONone end)
                 /\ Inv st1 cs1 /\ c_cap st1 = c_cap st.
@@ -461,7 +461,7 @@ Section Sim.
     d_isn (sc_s c) = Some isn ->
     dir_data parse_resp (sc_s c) isn (e_seq e) (e_pay e) = (d, ro) ->
     let cs1 := conn_replace (mkConn (sc_id c) (sc_c c) d) cs in
-    classify_dir (sc_s c) isn (e_seq e) (e_pay e) = (false, false, false) ->
+    classify_dir_strict (sc_s c) isn (e_seq e) (e_pay e) = (false, false, false) ->
     exists st1, stepM st (wire e) = (st1, match ro with Some q => OResp q | None => ONone end)
                 /\ Inv st1 cs1 /\ c_cap st1 = c_cap st.
   Proof.
@@ -573,7 +573,7 @@ Section Sim.
     Inv st cs -> conn_lookup (e_conn e) cs = Some c ->
     e_client e = false -> e_pay e = [] -> d_isn (sc_s c) = None ->
     let cs1 := conn_replace (mkConn (sc_id c) (sc_c c)
-                 (mkDir (Some (e_seq e)) (d_map (sc_s c)) (d_recv (sc_s c)) (d_done (sc_s c)))) cs in
+                 (mkDir (Some (e_seq e)) (d_map (sc_s c)) (d_recv (sc_s c)) (d_done (sc_s c)) (d_segs (sc_s c)))) cs in
     stepM st (wire e) = (st, ONone) /\ Inv st cs1.
   Proof.
     intros HI L Hc Hpay Hn cs1. set (id := e_conn e) in *.
@@ -597,11 +597,11 @@ Section Sim.
   Lemma step_sim st cs e cs1 o :
     Inv st cs -> e_seq e < two32 ->
     sstep parse_req parse_resp cs e = (cs1, o, true) ->
-    classify cs e cs1 = (false, false, false, false) ->
+    classify_strict cs e cs1 = (false, false, false, false) ->
     N.of_nat (length cs1) <= c_cap st ->
     exists st1, stepM st (wire e) = (st1, o) /\ Inv st1 cs1 /\ c_cap st1 = c_cap st.
   Proof.
-    intros HI Hseq Hs Hk Hcap. unfold sstep in Hs. unfold classify in Hk.
+    intros HI Hseq Hs Hk Hcap. unfold sstep in Hs. unfold classify_strict in Hk.
     destruct (conn_lookup (e_conn e) cs) as [c|] eqn:L.
     - destruct (e_syn e) eqn:Hsyn.
       + (* SYN on a known connection: only the server's first SYN is inside the domain *)
@@ -617,14 +617,14 @@ Section Sim.
           -- destruct (d_isn (sc_c c)) as [isn|] eqn:Hisn; [|now inversion Hs].
              destruct (dir_data parse_req (sc_c c) isn (e_seq e) (b :: r)) as [d ro] eqn:Hdd.
              injection Hs as <- <-.
-             destruct (classify_dir (sc_c c) isn (e_seq e) (b :: r)) as [[w g] u] eqn:Hcd.
+             destruct (classify_dir_strict (sc_c c) isn (e_seq e) (b :: r)) as [[w g] u] eqn:Hcd.
              injection Hk as -> -> -> Hfin.
              rewrite <- Hpay in Hdd, Hcd.
              eapply sim_client_data; eauto.
           -- destruct (d_isn (sc_s c)) as [isn|] eqn:Hisn; [|now inversion Hs].
              destruct (dir_data parse_resp (sc_s c) isn (e_seq e) (b :: r)) as [d ro] eqn:Hdd.
              injection Hs as <- <-.
-             destruct (classify_dir (sc_s c) isn (e_seq e) (b :: r)) as [[w g] u] eqn:Hcd.
+             destruct (classify_dir_strict (sc_s c) isn (e_seq e) (b :: r)) as [[w g] u] eqn:Hcd.
              injection Hk as -> -> ->.
              rewrite <- Hpay in Hdd, Hcd.
              eapply sim_server_data; eauto.
@@ -654,7 +654,7 @@ Section Sim.
   Lemma run_sim tr : forall st cs,
     Inv st cs -> (forall e, In e tr -> e_seq e < two32) ->
     snd (srun parse_req parse_resp cs tr) = true ->
-    krun parse_req parse_resp cs tr = (false, false, false, false) ->
+    krun_strict parse_req parse_resp cs tr = (false, false, false, false) ->
     N.of_nat (length (sfinal parse_req parse_resp cs tr)) <= c_cap st ->
     snd (run parse_req parse_resp st (map wire tr)) = fst (srun parse_req parse_resp cs tr).
   Proof.
@@ -663,8 +663,8 @@ Section Sim.
     destruct (sstep parse_req parse_resp cs e) as [[cs1 o] ok] eqn:Hs. cbn [fst] in Hcap.
     destruct (srun parse_req parse_resp cs1 tr) as [os ok2] eqn:Hr. cbn in Hwf.
     apply andb_true_iff in Hwf. destruct Hwf as [-> ->].
-    destruct (classify cs e cs1) as [[[w g] u] f] eqn:Hc.
-    destruct (krun parse_req parse_resp cs1 tr) as [[[w2 g2] u2] f2] eqn:Hk2.
+    destruct (classify_strict cs e cs1) as [[[w g] u] f] eqn:Hc.
+    destruct (krun_strict parse_req parse_resp cs1 tr) as [[[w2 g2] u2] f2] eqn:Hk2.
     injection Hk as Hw Hg Hu Hf.
     apply orb_false_iff in Hw, Hg, Hu, Hf.
     destruct Hw as [-> ->], Hg as [-> ->], Hu as [-> ->], Hf as [-> ->].
@@ -682,14 +682,14 @@ Section Sim.
   Theorem inorder_model_spec cap tr :
     (forall e, In e tr -> e_seq e < two32) ->
     spec_wf parse_req parse_resp tr = true ->
-    known parse_req parse_resp tr = false ->
+    known_strict parse_req parse_resp tr = false ->
     spec_conn_count parse_req parse_resp tr <= cap ->
     outs parse_req parse_resp cap (map wire tr) = spec_outs parse_req parse_resp tr.
   Proof.
     intros Hseq Hwf Hk Hcap. unfold outs, spec_outs.
     apply run_sim; auto using Inv_init.
-    unfold known, known_classes in Hk.
-    destruct (krun parse_req parse_resp [] tr) as [[[w g] u] f].
+    unfold known_strict, strict_classes in Hk.
+    destruct (krun_strict parse_req parse_resp [] tr) as [[[w g] u] f].
     apply orb_false_iff in Hk. destruct Hk as [Hk ->].
     apply orb_false_iff in Hk. destruct Hk as [Hk ->].
     apply orb_false_iff in Hk. destruct Hk as [-> ->]. reflexivity.
